@@ -26,6 +26,18 @@ def sh(cmd, **kw):
 def main():
     src, name, prop = sys.argv[1], sys.argv[2], sys.argv[3]
     checks = sys.argv[4:] or ALL
+    if checks == ['auto']:
+        # the checks whose property can be affected by the files the patch touches
+        text = open(os.path.join(src, 'patch.diff')).read()
+        rel = {prop}
+        table = {'cardutil/iso8583.py': 'C01 C02 C06 C07 C08 C10 C12 C16 C19 C20', 'cardutil/BitArray.py': 'C01 C02 C06 C17',
+                 'cardutil/config.py': 'C01 C02 C06 C12 C17 C18 C20', 'cardutil/mciipm.py': 'C03 C04 C05 C06 C09 C10 C11 C17 C18 C19 C20',
+                 'cardutil/card.py': 'C15 C16', 'cardutil/pinblock.py': 'C13 C14', 'cardutil/key.py': 'C14',
+                 'cardutil/cli/': 'C07 C18 C19 C20', 'cardutil/__init__.py': 'C07 C10'}
+        for k, v in table.items():
+            if ('a/' + k) in text:
+                rel.update(v.split())
+        checks = sorted(rel)
     wt = tempfile.mkdtemp(prefix='seedwt_', dir='/tmp')
     os.rmdir(wt)
     meta = {'name': name, 'property': prop, 'ran': []}
